@@ -8,6 +8,7 @@
 (*    "t"  plain text (n characters, also part of the plain text)           *)
 (*    "w"  inserted whitespace / line break (source only, not a tag)        *)
 (*    "oX" / "cX"  opening / closing tag X in {i, b, p}                     *)
+(*    "sc" a self-closing element (<br/>): a tag, balanced on its own       *)
 (* Offsets are character offsets; annotation spans are cut at token         *)
 (* boundaries (a "t" token of length 1 gives character granularity).        *)
 (* With HasSource the plain text is the concatenation of the "t" tokens and *)
@@ -31,7 +32,8 @@ VARIABLES src,      \* target text as token sequence
           pc, k, lastEnd, out, err
 vars == <<src, hasSrc, mode, anns, pc, k, lastEnd, out, err>>
 
-TagLen(c) == CASE c \in {"oi", "ob", "op"} -> 3 [] c \in {"ci", "cb", "cp"} -> 4 [] OTHER -> 0
+TagLen(c) == CASE c \in {"oi", "ob", "op"} -> 3 [] c \in {"ci", "cb", "cp"} -> 4 [] c = "sc" -> 5 [] OTHER -> 0
+IsTag(c) == c \in {"oi", "ob", "op", "oa", "ci", "cb", "cp", "ca", "sc"}
 IsOpen(c)  == c \in {"oi", "ob", "op", "oa"}
 IsClose(c) == c \in {"ci", "cb", "cp", "ca"}
 TagName(c) == CASE c \in {"oi", "ci"} -> "i" [] c \in {"ob", "cb"} -> "b"
@@ -84,7 +86,7 @@ RECURSIVE WrapItems(_, _, _, _)
 WrapItems(js, x, a, kk) ==    \* js: token indices inside the span, a: current slice start
     IF x > Len(js) THEN <<>>
     ELSE LET j == js[x] IN
-         IF IsOpen(src[j].c) \/ IsClose(src[j].c)
+         IF IsTag(src[j].c)
          THEN <<<<"A", kk>>, <<"s", Off(j), Off(j) + src[j].n>>, <<"B", kk>>>> \o WrapItems(js, x + 1, a, kk)
          ELSE <<<<"s", Off(j), Off(j) + src[j].n>>>> \o WrapItems(js, x + 1, a, kk)
 
